@@ -1,0 +1,12 @@
+//go:build verif
+
+package store
+
+import "github.com/cockroachdb/pebble/v2"
+
+// VerifBlockPropertyCollectors returns the block-property collectors NewStore opens pebble with, so a
+// verification harness can open the same kind of database on a crashable in-memory file system and
+// hand it to NewStoreWithDB (build tag `verif` only; add-only).
+func VerifBlockPropertyCollectors() []func() pebble.BlockPropertyCollector {
+	return []func() pebble.BlockPropertyCollector{newVersionedPropertyCollector}
+}
